@@ -7,7 +7,12 @@
  * callback, callback-backed) x fresh / previously-initialised table object.
  * Equal bases, one-word overlaps, reversed order, registers straddling an area
  * end or lying in a hole all occur because the lists are enumerated, not
- * hand-picked.  Oracle: the rule list of the statement.
+ * hand-picked.  Oracle: the rule list of the statement; where several rules
+ * are violated every Pareto-minimal violation over (rank of the rule, index) is
+ * an admissible report.  Defaults come in two flavours (non-zero, all-zero
+ * bits), memory-backed areas also with the user's own accessor functions.
+ * Only fields the public header documents as description or as the statement's
+ * observables (table flags, area entry records) are named.
  */
 #include "mc.h"
 #include "regtab.h"
@@ -37,10 +42,17 @@ noop_cb(RegisterTable *t, RegisterHandle h, void *arg)
     return 0;
 }
 
+/* the rules of the statement in the order it lists them */
+enum rule { R_NO_AREAS, R_AREA_ORDER, R_AREA_OVERLAP, R_ENTRY_ORDER, R_ENTRY_OVERLAP, R_HOLE, R_DEFAULT, R_NRULES };
+static const RegisterInitCode RULE_CODE[R_NRULES] = {
+    REG_INIT_NO_AREAS, REG_INIT_AREA_INVALID_ORDER, REG_INIT_AREA_ADDRESS_OVERLAP, REG_INIT_ENTRY_INVALID_ORDER,
+    REG_INIT_ENTRY_ADDRESS_OVERLAP, REG_INIT_ENTRY_IN_MEMORY_HOLE, REG_INIT_ENTRY_INVALID_DEFAULT,
+};
+
 struct expect {
     int n;
-    RegisterInitCode code[4];
-    long index[4]; /* -1: index not demanded */
+    RegisterInitCode code[R_NRULES + 1];
+    long index[R_NRULES + 1]; /* -1: index not demanded */
 };
 
 static void
@@ -93,97 +105,74 @@ default_acceptable(const struct rspec *r)
     return okd;
 }
 
-/* the rule list of the statement, over lists of any length */
+/* The rule list of the statement, over lists of any length.
+ *
+ * "Reports the first violated rule with the index of the offending area or
+ * register" leaves open what "first" runs over: the rules in the order of the
+ * statement, the list elements in the order of their index, or a validator in
+ * several walks each of which looks at some of the rules.  What every reading
+ * has in common: the reported (rule, index) is a violation that exists, and no
+ * other existing violation comes before it in BOTH orders.  So the admissible
+ * answers are the Pareto-minimal violations over (rank of the rule in the
+ * statement, index), each with its own index: for every rule the lowest index
+ * violating it, kept if no rule of lower rank is violated at the same or a
+ * lower index.  (The rule-major answer, the index-major answer and the answer
+ * of a single walk over the registers are three of them.) */
 static void
 reference_lists(const struct aspec *a, long na, const struct rspec *r, long nr, struct expect *e)
 {
+    long first[R_NRULES];
+    for (int k = 0; k < R_NRULES; ++k)
+        first[k] = -1;
     e->n = 0;
-    if (na == 0) {
-        expect_add(e, REG_INIT_NO_AREAS, -1);
-        return;
-    }
-    /* group 1: areas ascending and non-overlapping */
-    {
-        long ord = -1, ovl = -1;
-        for (long i = 1; i < na; ++i) {
-            if (a[i].base < a[i - 1].base) {
-                if (ord < 0) ord = i;
-            } else if ((uint64_t)a[i].base < (uint64_t)a[i - 1].base + a[i - 1].size) {
-                if (ovl < 0) ovl = i;
-            }
-        }
-        if (ord >= 0 || ovl >= 0) {
-            /* rule-major: order rule first; index-major: lowest index first */
-            if (ord >= 0) expect_add(e, REG_INIT_AREA_INVALID_ORDER, ord);
-            else expect_add(e, REG_INIT_AREA_ADDRESS_OVERLAP, ovl);
-            if (ord >= 0 && (ovl < 0 || ord < ovl)) expect_add(e, REG_INIT_AREA_INVALID_ORDER, ord);
-            else expect_add(e, REG_INIT_AREA_ADDRESS_OVERLAP, ovl);
-            return;
+    if (na == 0)
+        first[R_NO_AREAS] = 0; /* comes before everything else */
+    /* areas ascending and non-overlapping */
+    for (long i = 1; i < na && (first[R_AREA_ORDER] < 0 || first[R_AREA_OVERLAP] < 0); ++i) {
+        if (a[i].base < a[i - 1].base) {
+            if (first[R_AREA_ORDER] < 0) first[R_AREA_ORDER] = i;
+        } else if ((uint64_t)a[i].base < (uint64_t)a[i - 1].base + a[i - 1].size) {
+            if (first[R_AREA_OVERLAP] < 0) first[R_AREA_OVERLAP] = i;
         }
     }
-    /* A third admissible reading for the register rules (the statement says
-     * "the first violated rule with the index of the offending register" and
-     * does not say whether "first" is by rule or by register): one pass over
-     * the registers that checks order, overlap, placement and default per
-     * register, reporting the lowest-index register violating any of them. */
-    long sp_idx = -1;
-    RegisterInitCode sp_code = REG_INIT_SUCCESS;
-    for (long i = 0; i < nr && sp_idx < 0; ++i) {
-        if (i > 0 && r[i].addr < r[i - 1].addr) {
-            sp_idx = i; sp_code = REG_INIT_ENTRY_INVALID_ORDER;
-        } else if (i > 0 && (uint64_t)r[i].addr < (uint64_t)r[i - 1].addr + ref_words(r[i - 1].type)) {
-            sp_idx = i; sp_code = REG_INIT_ENTRY_ADDRESS_OVERLAP;
-        } else {
-            const long ai = area_containing_whole_l(a, na, &r[i]);
-            if (ai < 0) {
-                sp_idx = i; sp_code = REG_INIT_ENTRY_IN_MEMORY_HOLE;
-            } else if (area_loads_default(&a[ai]) && !default_acceptable(&r[i])) {
-                sp_idx = i; sp_code = REG_INIT_ENTRY_INVALID_DEFAULT;
-            }
+    /* registers ascending and non-overlapping */
+    for (long i = 1; i < nr && (first[R_ENTRY_ORDER] < 0 || first[R_ENTRY_OVERLAP] < 0); ++i) {
+        if (r[i].addr < r[i - 1].addr) {
+            if (first[R_ENTRY_ORDER] < 0) first[R_ENTRY_ORDER] = i;
+        } else if ((uint64_t)r[i].addr < (uint64_t)r[i - 1].addr + ref_words(r[i - 1].type)) {
+            if (first[R_ENTRY_OVERLAP] < 0) first[R_ENTRY_OVERLAP] = i;
         }
     }
-    /* group 2: registers ascending and non-overlapping */
-    {
-        long ord = -1, ovl = -1;
-        for (long i = 1; i < nr; ++i) {
-            if (r[i].addr < r[i - 1].addr) {
-                if (ord < 0) ord = i;
-            } else if ((uint64_t)r[i].addr < (uint64_t)r[i - 1].addr + ref_words(r[i - 1].type)) {
-                if (ovl < 0) ovl = i;
-            }
-        }
-        if (ord >= 0 || ovl >= 0) {
-            if (ord >= 0) expect_add(e, REG_INIT_ENTRY_INVALID_ORDER, ord);
-            else expect_add(e, REG_INIT_ENTRY_ADDRESS_OVERLAP, ovl);
-            if (ord >= 0 && (ovl < 0 || ord < ovl)) expect_add(e, REG_INIT_ENTRY_INVALID_ORDER, ord);
-            else expect_add(e, REG_INIT_ENTRY_ADDRESS_OVERLAP, ovl);
-            if (sp_idx >= 0)
-                expect_add(e, sp_code, sp_idx);
-            return;
+    /* every register wholly inside one area; every default that gets loaded
+     * acceptable to its own register */
+    for (long i = 0; i < nr && na > 0 && (first[R_HOLE] < 0 || first[R_DEFAULT] < 0); ++i) {
+        const long ai = area_containing_whole_l(a, na, &r[i]);
+        if (ai < 0) {
+            if (first[R_HOLE] < 0) first[R_HOLE] = i;
+        } else if (area_loads_default(&a[ai])) {
+            if (!default_acceptable(&r[i]) && first[R_DEFAULT] < 0) first[R_DEFAULT] = i;
         }
     }
-    /* group 3: every register wholly inside one area; every loaded default acceptable */
-    {
-        long hole = -1, bad = -1;
-        for (long i = 0; i < nr; ++i) {
-            const long ai = area_containing_whole_l(a, na, &r[i]);
-            if (ai < 0) {
-                if (hole < 0) hole = i;
-            } else if (area_loads_default(&a[ai])) {
-                if (!default_acceptable(&r[i]) && bad < 0) bad = i;
-            }
-            if (hole >= 0 && bad >= 0)
-                break;
+    long best = -1; /* lowest index violated by a rule of lower rank */
+    for (int k = 0; k < R_NRULES; ++k)
+        if (first[k] >= 0 && (best < 0 || first[k] < best)) {
+            expect_add(e, RULE_CODE[k], k == R_NO_AREAS ? -1 : first[k]);
+            best = first[k];
         }
-        if (hole >= 0 || bad >= 0) {
-            if (hole >= 0) expect_add(e, REG_INIT_ENTRY_IN_MEMORY_HOLE, hole);
-            else expect_add(e, REG_INIT_ENTRY_INVALID_DEFAULT, bad);
-            if (hole >= 0 && (bad < 0 || hole < bad)) expect_add(e, REG_INIT_ENTRY_IN_MEMORY_HOLE, hole);
-            else expect_add(e, REG_INIT_ENTRY_INVALID_DEFAULT, bad);
-            return;
-        }
-    }
-    expect_add(e, REG_INIT_SUCCESS, -1);
+    if (e->n == 0)
+        expect_add(e, REG_INIT_SUCCESS, -1);
+}
+
+/* "A@i or B@j or ..." */
+static const char *
+expect_str(const struct expect *e)
+{
+    static char buf[260];
+    size_t l = 0;
+    buf[0] = 0;
+    for (int i = 0; i < e->n && l + 48 < sizeof buf; ++i)
+        l += (size_t)snprintf(buf + l, sizeof buf - l, "%s%s@%ld", i ? " or " : "", initname(e->code[i]), e->index[i]);
+    return buf;
 }
 
 static void
@@ -194,6 +183,46 @@ reference(const struct tspec *s, struct expect *e)
 
 static long n_ok, n_bad;
 
+/* The library's own size limits, read from its public header: a description
+ * with at least that many registers (areas) cannot be counted by it and is
+ * refused as TOO_MANY_ENTRIES (TOO_MANY_AREAS) -- its documented size limit,
+ * not one of the statement's rules.  Limit = the header's macro, at most the
+ * largest value of the handle type. */
+static uint64_t
+lib_register_limit(void)
+{
+    uint64_t lim = (uint64_t)(RegisterHandle)~(RegisterHandle)0;
+#ifdef REGISTER_HANDLE_MAX
+    if ((uint64_t)REGISTER_HANDLE_MAX < lim)
+        lim = (uint64_t)REGISTER_HANDLE_MAX;
+#endif
+    return lim;
+}
+
+static uint64_t
+lib_area_limit(void)
+{
+    uint64_t lim = (uint64_t)(AreaHandle)~(AreaHandle)0;
+#ifdef AREA_HANDLE_MAX
+    if ((uint64_t)AREA_HANDLE_MAX < lim)
+        lim = (uint64_t)AREA_HANDLE_MAX;
+#endif
+    return lim;
+}
+
+static bool g_over_limit; /* the last g_init_and_check ended as an admissible size-limit refusal */
+
+static void
+note_over_limit(void)
+{
+    static bool seen;
+    if (seen)
+        return;
+    seen = true;
+    mc_cap("descriptions at or above the library's size limit (%llu registers / %llu areas) were refused as too large: rule list not judged for them",
+           (unsigned long long)lib_register_limit(), (unsigned long long)lib_area_limit());
+}
+
 /* after a refused initialisation the typed, block, iteration and sanitise
  * operations report the table as uninitialised */
 static bool
@@ -202,9 +231,10 @@ check_uninitialised(RegisterTable *t, uint32_t base0, const char *odesc, int pre
     RegisterValue v;
     memset(&v, 0, sizeof v);
     v.type = REG_TYPE_UINT16;
-    RegisterAtom *buf = mc_exact(2);
-    buf[0] = 0;
-    RegisterAccessCode c[9];
+    RegisterAtom *buf = mc_exact(2 * sizeof(RegisterAtom));
+    buf[0] = buf[1] = 0;
+    enum { NOPS = 15 };
+    RegisterAccessCode c[NOPS];
     c[0] = register_set(t, 0, v).code;
     c[1] = register_set_unsafe(t, 0, v).code;
     c[2] = register_get(t, 0, &v).code;
@@ -215,10 +245,20 @@ check_uninitialised(RegisterTable *t, uint32_t base0, const char *odesc, int pre
     v.type = REG_TYPE_UINT16;
     c[7] = register_bit_set(t, 0, v).code;
     c[8] = register_bit_clear(t, 0, v).code;
-    mc_trans(9);
+    /* the statement makes no exception for any request size: empty and
+     * two-word block requests, an empty range, a range above the table */
+    c[9] = register_block_read(t, base0, 0, buf).code;
+    c[10] = register_block_write(t, base0, 0, buf).code;
+    c[11] = register_block_read(t, base0, 2, buf).code;
+    c[12] = register_block_write(t, base0, 2, buf).code;
+    c[13] = register_foreach_in(t, base0, 0, noop_cb, NULL).code;
+    c[14] = register_foreach_in(t, 0x7fffff00u, 4, noop_cb, NULL).code;
+    mc_trans(NOPS);
     free(buf);
-    static const char *opn[9] = { "set", "set_unsafe", "get", "block_read", "block_write", "foreach_in", "sanitise", "bit_set", "bit_clear" };
-    for (int i = 0; i < 9; ++i)
+    static const char *opn[NOPS] = { "set", "set_unsafe", "get", "block_read", "block_write", "foreach_in", "sanitise", "bit_set", "bit_clear",
+                                     "block_read (of 0 words)", "block_write (of 0 words)", "block_read (of 2 words)", "block_write (of 2 words)",
+                                     "foreach_in (over 0 addresses)", "foreach_in (over addresses above the table)" };
+    for (int i = 0; i < NOPS; ++i)
         if (c[i] != REG_ACCESS_UNINITIALISED) {
             mc_fail("C04/failed-init-leaves-uninitialised", "%s preinit=%d: after %s, register_%s answered code %d instead of UNINITIALISED",
                     odesc, preinit, initname(code), opn[i], c[i]);
@@ -299,18 +339,55 @@ iter_same(RegisterTable *past, RegisterTable *fresh, uint32_t lo, uint32_t hi, c
     return true;
 }
 
+static int g_hook; /* memory-backed areas of the next one_init: 1 read, 2 write, 3 both accessors are the user's own wrappers */
+
+static RegisterAccess
+hook_mem_read(const RegisterArea *a, RegisterAtom *dest, RegisterOffset off, RegisterOffset n)
+{
+    return reg_mem_read(a, dest, off, n);
+}
+
+static RegisterAccess
+hook_mem_write(RegisterArea *a, const RegisterAtom *src, RegisterOffset off, RegisterOffset n)
+{
+    return reg_mem_write(a, src, off, n);
+}
+
 static bool
 one_init(const struct tspec *s, bool preinit, const char *odesc, bool dirty, long fault_k)
 {
     struct expect e;
     reference(s, &e);
     tab_build(&tb, s);
+    /* memory-backed areas whose accessors are the user's own functions (thin
+     * wrappers around reg_mem_read / reg_mem_write): still memory-backed */
+    for (int i = 0; i < s->na && g_hook; ++i)
+        if (!s->a[i].cb) {
+            if (g_hook & 1)
+                tb.areas[i].read = hook_mem_read;
+            if ((g_hook & 2) && tb.areas[i].write)
+                tb.areas[i].write = hook_mem_write;
+        }
     if (preinit) {
         /* the table object went through a successful initialisation of an
-         * earlier description */
-        tb.t.flags |= REG_TF_INITIALISED;
-        tb.t.areas = 1;
-        tb.t.entries = 0;
+         * earlier description (one memory-backed area of one word, no
+         * registers), done through the public API */
+        static RegisterAtom pre_mem[1];
+        static RegisterArea pre_areas[2] = { MAKE_CUSTOM_AREA(reg_mem_read, reg_mem_write, 0, 1, REG_AF_RW), REGISTER_AREA_END };
+        static RegisterEntry pre_entries[1] = { REGISTER_ENTRY_END };
+        pre_areas[0].mem = pre_mem;
+        tb.t.area = pre_areas;
+        tb.t.entry = pre_entries;
+        const RegisterInit pi = register_init(&tb.t);
+        mc_trans(1);
+        tb.t.area = tb.areas;
+        tb.t.entry = tb.entries;
+        if (pi.code != REG_INIT_SUCCESS) {
+            mc_fail("C04/accepts-well-formed", "%s: a table of one memory-backed area of one word at address 0 without registers was refused with %s",
+                    odesc, initname(pi.code));
+            tab_free(&tb);
+            return false;
+        }
     }
     if (dirty)
         /* descriptors built at run time in memory that was not zeroed, or a
@@ -335,8 +412,7 @@ one_init(const struct tspec *s, bool preinit, const char *odesc, bool dirty, lon
     case REG_INIT_ENTRY_IN_MEMORY_HOLE: case REG_INIT_ENTRY_INVALID_DEFAULT: idx = ri.pos.entry; break;
     default: break;
     }
-    mc_log("%s preinit=%d -> %s@%ld; reference: %s@%ld%s%s", odesc, preinit, initname(ri.code), idx, initname(e.code[0]), e.index[0],
-           e.n > 1 ? " or " : "", e.n > 1 ? initname(e.code[1]) : "");
+    mc_log("%s preinit=%d -> %s@%ld; reference: %s", odesc, preinit, initname(ri.code), idx, expect_str(&e));
     bool ok = true;
     bool want_success = e.code[0] == REG_INIT_SUCCESS;
     bool match = false;
@@ -359,8 +435,8 @@ one_init(const struct tspec *s, bool preinit, const char *odesc, bool dirty, lon
         else if (ri.code == REG_INIT_SUCCESS)
             mc_fail("C04/refuses-malformed", "%s preinit=%d: malformed table accepted; reference says %s@%ld", odesc, preinit, initname(e.code[0]), e.index[0]);
         else
-            mc_fail("C04/first-violated-rule", "%s preinit=%d: reported %s@%ld; reference says %s@%ld%s%s@%ld", odesc, preinit, initname(ri.code), idx,
-                    initname(e.code[0]), e.index[0], e.n > 1 ? " or " : "", e.n > 1 ? initname(e.code[1]) : "", e.n > 1 ? e.index[1] : -1L);
+            mc_fail("C04/first-violated-rule", "%s preinit=%d: reported %s@%ld; the minimal violations are %s", odesc, preinit, initname(ri.code), idx,
+                    expect_str(&e));
         ok = false;
     } else if (!want_success) {
         n_bad++;
@@ -475,6 +551,42 @@ mkreg(struct rspec *r, uint32_t addr, uint32_t words, bool bad, int variant)
     }
 }
 
+/* the same registers with all-zero defaults: `bad` selects a constraint that
+ * refuses zero, otherwise one that admits it (memory that was just cleared
+ * holds the default already -- the default is held against the constraint all
+ * the same) */
+static void
+mkreg_zero(struct rspec *r, uint32_t addr, uint32_t words, bool bad, int variant)
+{
+    memset(r, 0, sizeof *r);
+    r->addr = addr;
+    r->def = vu_zero();
+    if (words == 1) {
+        r->type = REG_TYPE_UINT16;
+        r->ckind = K_RANGE;
+        r->lo = vu_int(r->type, bad ? 10 : 0);
+        r->hi = vu_int(r->type, 20);
+    } else if (words == 2 && (variant & 1)) {
+        r->type = REG_TYPE_FLOAT32;
+        r->ckind = K_MIN;
+        r->lo.f32 = bad ? 1.0f : -1.0f;
+    } else if (words == 2) {
+        r->type = REG_TYPE_SINT32;
+        r->ckind = bad ? K_MAX : K_MIN;
+        r->lo = vu_int(r->type, -5);
+        r->hi = vu_int(r->type, -1);
+    } else if (variant & 1) {
+        r->type = REG_TYPE_UINT64;
+        r->ckind = bad ? K_MIN : K_FAIL; /* always-fail registers still take their default at init */
+        r->lo = vu_int(r->type, 1);
+    } else {
+        r->type = REG_TYPE_FLOAT64;
+        r->ckind = bad ? K_RANGE : K_CB;
+        r->lo.f64 = 1.0;
+        r->hi.f64 = 2.0;
+    }
+}
+
 static void
 run_lists(const struct grid *g, const uint32_t *ab, const uint32_t *as, int na, const uint32_t *ra, const uint32_t *rsz, int nr, int64_t *ncase)
 {
@@ -500,13 +612,23 @@ run_lists(const struct grid *g, const uint32_t *ab, const uint32_t *as, int na, 
     n_ok = n_bad = 0;
     bool ok = true;
     const int nmask = 1 << (nr > 3 ? 3 : nr);
-    /* area options: 0 plain; 1+2i skip-defaults on area i; 2+2i no write callback on area i; last: all callback-backed */
+    /* area options: 0 plain; 1+2i skip-defaults on area i; 2+2i no write callback on area i; 1+2na: all callback-backed;
+     * 2+2na .. 4+2na: all memory-backed with the read / the write / both accessors replaced by the user's own wrappers
+     * (all-good defaults only: what is looked at is the state after success) */
     const bool reduced = (g->lr >= 3 && nr >= 3); /* enumerated 3-register lists: plain areas, at most one bad default */
-    const int nopt = reduced ? 1 : 1 + 2 * na + (na > 0);
+    const int nopt = reduced ? 1 : 1 + 2 * na + (na > 0 ? 4 : 0);
+    /* default flavour: 0 non-zero defaults, 1 all-zero defaults (good: the constraint admits zero, bad: it refuses zero);
+     * the zero flavour with plain and with callback-backed areas, lists of up to two registers */
+    for (int zero = 0; zero < (nr > 0 && !reduced ? 2 : 1) && ok; ++zero)
     for (int mask = 0; mask < nmask && ok; ++mask)
         for (int opt = 0; opt < nopt && ok; ++opt)
             for (int variant = 0; variant < 2 && ok; ++variant) {
                 if (reduced && (mask & (mask - 1)))
+                    continue;
+                const int hook = (na > 0 && opt >= 2 + 2 * na) ? opt - (1 + 2 * na) : 0;
+                if (hook && (mask != 0 || zero))
+                    continue;
+                if (zero && opt != 0 && opt != 1 + 2 * na)
                     continue;
                 struct tspec s;
                 memset(&s, 0, sizeof s);
@@ -526,10 +648,17 @@ run_lists(const struct grid *g, const uint32_t *ab, const uint32_t *as, int na, 
                 }
                 s.nr = nr;
                 for (int i = 0; i < nr; ++i)
-                    mkreg(&s.r[i], ra[i], rsz[i], (mask >> (i > 2 ? 2 : i)) & 1, variant + i);
-                char od[64];
-                snprintf(od, sizeof od, "mask=%d opt=%d variant=%d", mask, opt, variant);
+                    (zero ? mkreg_zero : mkreg)(&s.r[i], ra[i], rsz[i], (mask >> (i > 2 ? 2 : i)) & 1, variant + i);
+                char od[96];
+                snprintf(od, sizeof od, "defaults=%s mask=%d opt=%d%s variant=%d", zero ? "zero" : "non-zero", mask, opt,
+                         hook == 1 ? " (own read accessor)" : hook == 2 ? " (own write accessor)" : hook == 3 ? " (own read and write accessors)" : "", variant);
+                g_hook = hook;
                 ok = one_init(&s, false, od, false, -1);
+                if (ok && hook)
+                    ok = one_init(&s, false, od, true, -1); /* and with dirty descriptors */
+                g_hook = 0;
+                if (hook || zero)
+                    continue;
                 if (ok && opt == 0)
                     ok = one_init(&s, true, od, false, -1);
                 /* dirty descriptors and write faults are independent of which
@@ -887,27 +1016,30 @@ g_init_and_check(struct gtab *g, const char *prefix, bool *accepted)
     default: break;
     }
     if (mc.only >= 0)
-        mc_log("%s -> %s@%ld; reference: %s@%ld%s%s", odesc, initname(ri.code), idx, initname(e.code[0]), e.index[0],
-               e.n > 1 ? " or " : "", e.n > 1 ? initname(e.code[1]) : "");
+        mc_log("%s -> %s@%ld; reference: %s", odesc, initname(ri.code), idx, expect_str(&e));
     const bool want_success = e.code[0] == REG_INIT_SUCCESS;
     bool match = false;
     for (int i = 0; i < e.n; ++i)
         if (ri.code == e.code[i] && (e.index[i] < 0 || e.index[i] == idx))
             match = true;
     *accepted = ri.code == REG_INIT_SUCCESS;
+    g_over_limit = false;
+    if ((ri.code == REG_INIT_TOO_MANY_ENTRIES && (uint64_t)nr >= lib_register_limit())
+        || (ri.code == REG_INIT_TOO_MANY_AREAS && (uint64_t)na >= lib_area_limit())) {
+        /* the library's documented size limit: admissible whatever else the
+         * description holds, with any index; the table is then uninitialised */
+        g_over_limit = true;
+        note_over_limit();
+        n_bad++;
+        return check_uninitialised(&g->t, na ? a[0].base : 0, odesc, 0, ri.code);
+    }
     if (!match) {
         if (want_success)
             mc_fail("C04/accepts-well-formed", "%s: well-formed table refused with %s@%ld", odesc, initname(ri.code), idx);
         else if (ri.code == REG_INIT_SUCCESS)
             mc_fail("C04/refuses-malformed", "%s: malformed table accepted; reference says %s@%ld", odesc, initname(e.code[0]), e.index[0]);
-        else {
-            char alt[120];
-            size_t l = 0;
-            alt[0] = 0;
-            for (int i = 1; i < e.n && l + 40 < sizeof alt; ++i)
-                l += (size_t)snprintf(alt + l, sizeof alt - l, " or %s@%ld", initname(e.code[i]), e.index[i]);
-            mc_fail("C04/first-violated-rule", "%s: reported %s@%ld; reference says %s@%ld%s", odesc, initname(ri.code), idx, initname(e.code[0]), e.index[0], alt);
-        }
+        else
+            mc_fail("C04/first-violated-rule", "%s: reported %s@%ld; the minimal violations are %s", odesc, initname(ri.code), idx, expect_str(&e));
         return false;
     }
     if (!want_success) {
@@ -1227,7 +1359,10 @@ long_case(long N, long s, int kind, long k, bool cb)
     n_ok = n_bad = 0;
     bool acc;
     const bool ok = g_init_and_check(&ng, "", &acc);
-    mc_end(true, !ok ? "failed" : acc ? "long-accepted" : "long-refused");
+    if (ok && g_over_limit)
+        mc_end(false, "long-over-limit");
+    else
+        mc_end(true, !ok ? "failed" : acc ? "long-accepted" : "long-refused");
 }
 
 static void
@@ -1347,7 +1482,10 @@ family_areas(bool thorough)
                         n_ok = n_bad = 0;
                         bool acc;
                         const bool ok = g_init_and_check(&ag, "", &acc);
-                        mc_end(true, !ok ? "failed" : acc ? "long-accepted" : "long-refused");
+                        if (ok && g_over_limit)
+                            mc_end(false, "long-over-limit");
+                        else
+                            mc_end(true, !ok ? "failed" : acc ? "long-accepted" : "long-refused");
                     }
                 }
 }
@@ -1384,11 +1522,16 @@ struct hresidue {
     char text[230]; /* the first D1 that leaves it behind */
 };
 
+/* what a first initialisation leaves behind, without naming any internal
+ * field: the byte image of the table, area and entry objects with every field
+ * the public header documents as part of the description (and the pointers to
+ * the description) overwritten by a canonical value.  Pointers the library
+ * keeps inside its objects point into the one descriptor block of this
+ * process, so equal residues have equal images. */
 struct hkey {
-    uint32_t flags, areas, entries;
-    uint32_t afirst[H_CAPA + 1], alast[H_CAPA + 1], acount[H_CAPA + 1];
-    int32_t elink[H_CAPR + 1];
-    uint32_t eoff[H_CAPR + 1], eflags[H_CAPR + 1];
+    unsigned char t[sizeof(RegisterTable)];
+    unsigned char a[(H_CAPA + 1) * sizeof(RegisterArea)];
+    unsigned char e[(H_CAPR + 1) * sizeof(RegisterEntry)];
 };
 
 typedef void (*hfn)(const struct hdesc *d);
@@ -1503,21 +1646,38 @@ static bool h_thorough;
 static void
 hkey_of(const struct gtab *g, struct hkey *k)
 {
+    RegisterTable t;
+    static RegisterArea ar[H_CAPA + 1];
+    static RegisterEntry en[H_CAPR + 1];
     memset(k, 0, sizeof *k);
-    k->flags = g->t.flags & (uint32_t)~REG_TF_BIG_ENDIAN; /* the byte order belongs to the description */
-    k->areas = g->t.areas;
-    k->entries = g->t.entries;
+    memcpy(&t, &g->t, sizeof t);
+    t.area = NULL;
+    t.entry = NULL;
+    register_make_bigendian(&t, false); /* the byte order belongs to the description */
+    memcpy(ar, g->areas, sizeof ar);
     for (int i = 0; i <= H_CAPA; ++i) {
-        k->afirst[i] = g->areas[i].entry.first;
-        k->alast[i] = g->areas[i].entry.last;
-        k->acount[i] = g->areas[i].entry.count;
+        ar[i].read = NULL;
+        ar[i].write = NULL;
+        ar[i].flags = 0;
+        ar[i].base = 0;
+        ar[i].size = 0;
+        ar[i].mem = NULL;
+#ifdef REGISTER_TABLE_WITH_AREA_USER_DATA
+        ar[i].user = NULL;
+#endif
     }
+    memcpy(en, g->entries, sizeof en);
     for (int i = 0; i <= H_CAPR; ++i) {
-        const RegisterArea *l = g->entries[i].area;
-        k->elink[i] = l == NULL ? -1 : (l >= g->areas && l <= g->areas + H_CAPA) ? (int32_t)(l - g->areas) : -2;
-        k->eoff[i] = g->entries[i].offset;
-        k->eflags[i] = g->entries[i].flags;
+        en[i].type = REG_TYPE_UINT16;
+        memset(&en[i].default_value, 0, sizeof en[i].default_value);
+        en[i].address = 0;
+        memset(&en[i].check, 0, sizeof en[i].check);
+        en[i].name = NULL;
+        en[i].user = NULL;
     }
+    memcpy(k->t, &t, sizeof t);
+    memcpy(k->a, ar, sizeof ar);
+    memcpy(k->e, en, sizeof en);
 }
 
 static void
@@ -1629,15 +1789,15 @@ family_history(bool thorough)
     hfamily_enumerate(thorough, hcase_visit);
 }
 
-#define NEWBOUND_Q "; dirty-descriptor runs also compared with a fresh twin under every iteration window; WIDE: one area of {6,0xffff,0x10000,0x10001,0x10004,0x1ffff,0x20001} words at 10 bases (0, 0x1000, 0xfffd, 0x10000, 0x7ffffffe, ending at 2^31, ending 5/2/1/0 words below 2^32) x neighbour {none, adjacent behind, one word behind, adjacent before, on the last two words, before but listed behind} x {callback-backed, memory-backed} x all register lists of length 0..2 over the addresses around start / offset 2^16 / end x size {1,2,4} x bad-default masks x variants (memory-backed: singles and pairs led by a register at the base; malformed area lists: length 0..1); LONG: {255..258, 65535..65538} 16-bit registers in one or two areas (split around 2^8 / 2^16) x one violated rule {none, order, overlap, default, hole, straddle, beyond} at indices around 2^8 / 2^16 / last; {254..258} areas of 4 words x one violated rule at indices around 2^8; HISTORY: every ordered pair (D1, D2) of 16960 descriptions (8 area layouts x register lists over address 0..7 x size {1,2}: all of length 0..2 with the last default good/bad, all triples with non-descending starts and all ascending 16-bit quadruples memory-backed, all of length 0..2 callback-backed), D1 reduced to its residue in the descriptors, D2 checked as fresh plus iteration over every window compared with a fresh twin"
-#define NEWBOUND_T "; dirty-descriptor runs also compared with a fresh twin under every iteration window; WIDE: one area of {6,0xffff,0x10000,0x10001,0x10004,0x1ffff,0x20001} words at 10 bases (0, 0x1000, 0xfffd, 0x10000, 0x7ffffffe, ending at 2^31, ending 5/2/1/0 words below 2^32) x neighbour {none, adjacent behind, one word behind, adjacent before, on the last two words, before but listed behind} x {callback-backed, memory-backed} x all register lists of length 0..3 (3: ascending starts) over the addresses around start / offset 2^16 / end x size {1,2,4} x bad-default masks x variants (memory-backed: singles and pairs led by a register at the base; malformed area lists: length 0..1); LONG: {255..258, 65535..65538} 16-bit registers in one or two areas (split around 2^8 / 2^16) x one violated rule {none, order, overlap, default, hole, straddle, beyond} at indices around 2^8 / 2^16 / last; {254..258} areas of 4 words x one violated rule at indices around 2^8; HISTORY: every ordered pair (D1, D2) of 361440 descriptions (12 area layouts x register lists over address 0..7 x size {1,2,4}: all of length 0..3 with the last default good/bad and the ascending 16-bit quadruples memory-backed, all of length 0..2 callback-backed), D1 reduced to its residue in the descriptors, D2 checked as fresh plus iteration over every window compared with a fresh twin"
+#define NEWBOUND_Q "; dirty-descriptor runs also compared with a fresh twin under every iteration window; WIDE: one area of {6,0xffff,0x10000,0x10001,0x10004,0x1ffff,0x20001} words at 10 bases (0, 0x1000, 0xfffd, 0x10000, 0x7ffffffe, ending at 2^31, ending 5/2/1/0 words below 2^32) x neighbour {none, adjacent behind, one word behind, adjacent before, on the last two words, before but listed behind} x {callback-backed, memory-backed} x all register lists of length 0..2 over the addresses around start / offset 2^16 / end x size {1,2,4} x bad-default masks x variants (memory-backed: singles and pairs led by a register at the base; malformed area lists: length 0..1); LONG: {255..258, 65535..65538} 16-bit registers in one or two areas (split around 2^8 / 2^16) x one violated rule {none, order, overlap, default, hole, straddle, beyond} at indices around 2^8 / 2^16 / last; {254..258} areas of 4 words x one violated rule at indices around 2^8 (a description with at least as many registers / areas as the library's header gives as its limit may also be refused as too large); HISTORY: every ordered pair (D1, D2) of 16960 descriptions (8 area layouts x register lists over address 0..7 x size {1,2}: all of length 0..2 with the last default good/bad, all triples with non-descending starts and all ascending 16-bit quadruples memory-backed, all of length 0..2 callback-backed), D1 reduced to its residue in the descriptors, D2 checked as fresh plus iteration over every window compared with a fresh twin"
+#define NEWBOUND_T "; dirty-descriptor runs also compared with a fresh twin under every iteration window; WIDE: one area of {6,0xffff,0x10000,0x10001,0x10004,0x1ffff,0x20001} words at 10 bases (0, 0x1000, 0xfffd, 0x10000, 0x7ffffffe, ending at 2^31, ending 5/2/1/0 words below 2^32) x neighbour {none, adjacent behind, one word behind, adjacent before, on the last two words, before but listed behind} x {callback-backed, memory-backed} x all register lists of length 0..3 (3: ascending starts) over the addresses around start / offset 2^16 / end x size {1,2,4} x bad-default masks x variants (memory-backed: singles and pairs led by a register at the base; malformed area lists: length 0..1); LONG: {255..258, 65535..65538} 16-bit registers in one or two areas (split around 2^8 / 2^16) x one violated rule {none, order, overlap, default, hole, straddle, beyond} at indices around 2^8 / 2^16 / last; {254..258} areas of 4 words x one violated rule at indices around 2^8 (a description with at least as many registers / areas as the library's header gives as its limit may also be refused as too large); HISTORY: every ordered pair (D1, D2) of 361440 descriptions (12 area layouts x register lists over address 0..7 x size {1,2,4}: all of length 0..3 with the last default good/bad and the ascending 16-bit quadruples memory-backed, all of length 0..2 callback-backed), D1 reduced to its residue in the descriptors, D2 checked as fresh plus iteration over every window compared with a fresh twin"
 
 int
 main(int argc, char **argv)
 {
     mc_init(argc, argv);
     int64_t ncase = 0;
-    char bound[2600];
+    char bound[3400];
     if (!mc_thorough()) {
         const struct grid g1 = { 2, 2, 6, 3, { 1, 2, 4 }, 8 };
         enum_all(&g1, &ncase);
@@ -1651,7 +1811,7 @@ main(int argc, char **argv)
             for (int r = 0; r < 5; ++r)
                 for (int nr = 3; nr <= 5; ++nr)
                     run_lists(&g2, AB[a], AS[a], 3, RA[r], RS[r], nr, &ncase);
-        snprintf(bound, sizeof bound, "all area lists of length 0..2 over base 0..6 x size {1,2,4} x all register lists of length 0..2 over address 0..8 x size {1,2,4}; 60 curated 3-area / 3..5-register tables; each x bad-default masks x area options x LE/BE type variants x fresh/re-init%s", NEWBOUND_Q);
+        snprintf(bound, sizeof bound, "all area lists of length 0..2 over base 0..6 x size {1,2,4} x all register lists of length 0..2 over address 0..8 x size {1,2,4}; 60 curated 3-area / 3..5-register tables; each x defaults {non-zero; all-zero bits with plain and callback-backed areas, lists of <= 2 registers} x bad-default masks x area options (plain, skip-defaults / no write callback per area, all callback-backed, all memory-backed with own read / write / both accessors) x LE/BE type variants x fresh/re-init; after a refusal 15 operations (typed, bit, block of 0/1/2 words, iteration over 16/0/far addresses, sanitise)%s", NEWBOUND_Q);
     } else {
         const struct grid g1 = { 2, 3, 8, 4, { 1, 2, 3, 4 }, 10 };
         enum_all(&g1, &ncase);
@@ -1669,7 +1829,7 @@ main(int argc, char **argv)
             }
             enum_regs(&g3, ab, as, 3, &ncase);
         }
-        snprintf(bound, sizeof bound, "all area lists of length 0..2 over base 0..8 x size {1,2,3,4} x all register lists of length 0..3 over address 0..10 x size {1,2,4}; all 3-area lists over base {0,1,2,4,5,8} x size {1,2,4} x all register lists of length 0..2; each x bad-default masks x area options x LE/BE type variants x fresh/re-init%s", NEWBOUND_T);
+        snprintf(bound, sizeof bound, "all area lists of length 0..2 over base 0..8 x size {1,2,3,4} x all register lists of length 0..3 over address 0..10 x size {1,2,4}; all 3-area lists over base {0,1,2,4,5,8} x size {1,2,4} x all register lists of length 0..2; each x defaults {non-zero; all-zero bits with plain and callback-backed areas, lists of <= 2 registers} x bad-default masks x area options (plain, skip-defaults / no write callback per area, all callback-backed, all memory-backed with own read / write / both accessors) x LE/BE type variants x fresh/re-init; after a refusal 15 operations (typed, bit, block of 0/1/2 words, iteration over 16/0/far addresses, sanitise)%s", NEWBOUND_T);
     }
     family_wide(mc_thorough());
     family_long(mc_thorough());
